@@ -286,7 +286,7 @@ class CodeGenerator(nunavut._generators.AbstractGenerator):
     ) -> None:
         newline_pattern = re.compile(r"\n|\r\n", flags=re.MULTILINE)
         line_buffer = io.StringIO()
-        for part in template_gen:
+        for part in _rejoin_split_crlf(template_gen):
             search_pos = 0  # type: int
             match_obj = newline_pattern.search(part, search_pos)
             while True:
@@ -1004,3 +1004,18 @@ class SupportGenerator(CodeGenerator):
                         resource_line_tuple = line_pp(resource_line_tuple)
                     target_file.write(resource_line_tuple[0])
                     target_file.write(resource_line_tuple[1])
+
+
+def _rejoin_split_crlf(parts: typing.Iterable[str]) -> typing.Generator[str, None, None]:
+    """
+    Re-chunk a stream of text parts such that a "\\r\\n" sequence is never split across two parts. A carriage return
+    at the end of a part is held back and prepended to the next part (or emitted last if the stream ends).
+    """
+    pending_cr = False
+    for part in parts:
+        if pending_cr:
+            part = "\r" + part
+        pending_cr = part.endswith("\r")
+        yield part[:-1] if pending_cr else part
+    if pending_cr:
+        yield "\r"
